@@ -675,6 +675,9 @@ fn lex_line(
 							}
 							None =>
 							{
+								// The backslash is the last character of the
+								// line: there is no escaped character to span.
+								source_offset_end -= 1;
 								let warning = LexedToken {
 									result: Err(
 										Error::UnexpectedTrailingBackslash,
